@@ -121,6 +121,7 @@ class Link:
         self.cut_after: list[Optional[int]] = [None, None]  # cut link after side i delivered k bytes
         self.cut_mode = 'eof'
         self.delivered = [0, 0]
+        self._delayed: list[list] = [[], []]
         self.log: list[tuple[int, bytes]] = []   # (writer side, data) in write order
         self.dead = False
         self.opened_at = self.loop.time()
@@ -164,9 +165,19 @@ class Link:
     def _schedule(self, from_side, fn, *args):
         d = self.delay[from_side]
         if d > 0:
-            self.loop.call_later(d, fn, *args)
+            # FIFO per direction: timers with equal deadlines are not ordered by asyncio's heap, so
+            # every timer callback runs the *oldest* pending item of this direction, not its own
+            q = self._delayed[from_side]
+            q.append((fn, args))
+            self.loop.call_later(d, self._run_delayed, from_side)
         else:
             self.loop.call_soon(fn, *args)
+
+    def _run_delayed(self, from_side):
+        q = self._delayed[from_side]
+        if q:
+            fn, args = q.pop(0)
+            fn(*args)
 
     def _closed_by(self, side: int):
         self.closed[side] = True
